@@ -34,6 +34,7 @@ RULE = (
     "unsigned intermediates; library-signed envelopes compared with the reference. non-trivial = signed "
     "message with >= 1 record beyond the question, or an envelope with >= 1 unsigned intermediate; "
     "each flip counts once"
+    ' Every signed message of an envelope is also offered with a non-zero TSIG error (peer-signed and set in transit).'
 )
 ASSUMPTIONS = [
     "vlib/ref/tsig_ref.py (hashlib/hmac only) is the trusted RFC 8945 composer",
